@@ -80,10 +80,10 @@ def checkLine (line : String) : String :=
       | some dl', some hd' => fmtVerdict (Spec.C13 s d dl' mk hd')
       | _, _ => "badinput"
     | _, _, _, _, _ => "badinput"
-  | ["C14", hex, dump, kind, at_, ty] =>
-    match charsOfHex hex, parseDump dump, errKindOfName kind, at_.toNat?, tokTypeOfName ty with
-    | some s, some d, some k, some a, some t => fmtVerdict (Spec.C14 s d k a t)
-    | _, _, _, _, _ => "badinput"
+  | ["C14", hex, dump, kind, at_, ty, cnt] =>
+    match charsOfHex hex, parseDump dump, errKindOfName kind, at_.toNat?, tokTypeOfName ty, cnt.toNat? with
+    | some s, some d, some k, some a, some t, some c => fmtVerdict (Spec.C14 s d k a t c)
+    | _, _, _, _, _, _ => "badinput"
   | ["C15", hexA, hexB, dA, dB, dAB] =>
     match charsOfHex hexA, charsOfHex hexB, parseDump dA, parseDump dB, parseDump dAB with
     | some a, some b, some x, some y, some z =>
